@@ -863,6 +863,25 @@ def fam_cpu_mix(seed):
     return g.finish(outs, "cpu-mix", "cpu-mix", tol=None)
 
 
+def fam_stripe_resize(seed):
+    """a 2x / 4x resize in the middle of a chain of convolutions on a tall feature map: under memory pressure the resize is striped inside a cascade
+    (nearest-neighbour upscaled IFM, kernel over the replicated rows).  No output tolerance is claimed (the resize is approximated mid-network)."""
+    r = rng_for("stripe-resize", seed)
+    g = G(r, "int8")
+    h, w, c = int(r.choice([16, 24, 32, 40])), int(r.choice([8, 12, 16])), int(r.choice([8, 16]))
+    x = g.input([1, h, w, c])
+    x = g.conv(x, int(r.choice([8, 16])), int(r.choice([1, 3])), 1, PAD_SAME, int(r.choice([0, 1])))
+    f = int(r.choice([2, 2, 4]))
+    kind = str(r.choice(["resize_bilinear", "resize_bilinear", "resize_nearest"]))
+    ac = bool(r.integers(0, 4) == 0)
+    X = g.T(x)
+    oh, ow = (X.shape[1] * f, X.shape[2] * f) if not ac else ((X.shape[1] - 1) * f + 1, (X.shape[2] - 1) * f + 1)
+    x = g.resize(x, kind, oh, ow, ac, False)
+    for _ in range(int(r.integers(1, 3))):
+        x = g.conv(x, int(r.choice([8, 16])), int(r.choice([1, 3, 3])), 1, int(r.choice([PAD_SAME, PAD_VALID])), int(r.choice([0, 1])))
+    return g.finish([x], "stripe-resize", "approx-mid", None)
+
+
 def fam_tiny(seed):
     """single-operator networks: nothing is weight-buffered, cascaded or (on dedicated-SRAM systems) placed in SRAM at all"""
     r = rng_for("tiny", seed)
@@ -898,6 +917,7 @@ FAMILIES = {
     "cpu-mix": fam_cpu_mix,
     "shared-weights": fam_shared_weights,
     "tiny": fam_tiny,
+    "stripe-resize": fam_stripe_resize,
 }
 
 
